@@ -16,6 +16,8 @@
 (*   names      UTF-16 strings are returned exactly, whatever they start     *)
 (*              with                                                         *)
 (*   misc       the largest of the five MISC_INFO layouts that fits          *)
+(*   padding    counted 32-bit lists are accepted with 0 or 4 bytes between  *)
+(*              the count and the entries, and mean the same items           *)
 (* Byte order is an input of the ELF debug-id rule and of nothing else.      *)
 (***************************************************************************)
 EXTENDS Naturals, Sequences, FiniteSets, TLC, Json
@@ -45,8 +47,9 @@ DirEntries == [type : DirTypes, variant : {"A", "B"}]
 SeqsUpTo(S, n) == UNION {[1..k -> S] : k \in 0..n}
 Models(fc) ==
   CASE fc = "modules" -> [mods : SeqsUpTo(ModuleSpecs, 1) \cup {<<a, b>> : a \in [cv : CvKinds, os : {"linux"}, sigOk : {TRUE}], b \in [cv : {"pdb70", "elf20", "none"}, os : {"linux"}, sigOk : {TRUE}]}, order : {"asc", "desc"}]
-    [] fc = "threads" -> [stacks : SeqsUpTo(StackKinds, 3), dupIds : BOOLEAN, memKind : {"mem32", "mem64"}]
-    [] fc = "memory" -> [memKind : {"mem32", "mem64"}, regions : 0..3, placement : Placements]
+    \* pad: the 32-bit list streams may carry 4 bytes of padding between the count and the first entry (read_stream_list)
+    [] fc = "threads" -> [stacks : SeqsUpTo(StackKinds, 3), dupIds : BOOLEAN, memKind : {"mem32", "mem64"}, pad : {0, 4}]
+    [] fc = "memory" -> [memKind : {"mem32", "mem64"}, regions : 0..3, placement : Placements, pad : {0, 4}]
     [] fc = "directory" -> [dir : SeqsUpTo(DirEntries, MaxDir)]
     [] fc = "names" -> [site : {"module", "thread", "unloaded", "csd", "bootargs", "handle_type"}, kind : NameKinds]
     [] fc = "misc" -> [layout : 1..5, pad : {0, 4}]
